@@ -17,6 +17,7 @@ WORKLOADS = {
     "c09": _lazy("crop", "run_c09"),
     "c11": _lazy("race", "run_c11"),
     "c12": _lazy("reapfail", "run_c12"),
+    "c10": _lazy("crash", "run_c10"),
 }
 
 REAL_VS_STUB = {
@@ -35,7 +36,7 @@ UNDER_CONSTRUCTION = "simulation target (see DESIGN.md section 3); check not bui
 
 NOT_APPLICABLE = {
     "C01": UNDER_CONSTRUCTION, "C05": UNDER_CONSTRUCTION, "C06": UNDER_CONSTRUCTION,
- "C10": UNDER_CONSTRUCTION,
+ 
     "C15": UNDER_CONSTRUCTION,
     "C16": UNDER_CONSTRUCTION,
     "C02": "pure function of (cases, combos, fn): enumeration and placeholder shape contain no schedule, "
@@ -158,6 +159,34 @@ PROPS = {
                     "on disk); non-trivial = every run (each injects its cell's failure or checks the clean-up rule); "
                     "distinct = distinct (cell, N, batches, kind, finished set).",
             "cells_total": 204,
+        },
+    },
+    "C10": {
+        "workload": "c10", "level": "fault_enumeration",
+        "quick": 480, "thorough": 12000,
+        "shrink_execs": 60, "shrink_wall": 150,
+        "technique": "deterministic simulation with crash-site enumeration: the victim phase (sow, re-sow, grow, "
+                     "Crop.grow, grow_missing, reap; raw / Runner / Harvester / Sampler crops) is run once to count "
+                     "its interposed file operations and then re-run from a snapshot with a kill before every one of "
+                     "them (partial kernel writes and small userspace buffers give torn prefixes); after each kill: "
+                     "plain-reap probe, documented recovery by fresh simulated processes with an optional second "
+                     "kill, comparison with the reference and with the data that was on disk before",
+        "level_text": "Within each seeded scenario every crash site of the victim phase is enumerated (all K <= 150 "
+                      "operation boundaries, else 150 evenly spaced ones); scenarios, write splits, listing order, "
+                      "and the second crash (step and site) are seeded. After each crash a plain reap must refuse or "
+                      "be exact, the recovery must reach the reference, and harvester/sampler data saved earlier "
+                      "must stay loadable and unchanged at the crash state and after recovery.",
+        "level_note": "Crash model: process kill (userspace buffers lost, kernel state kept), no power loss. Recovery "
+                      "procedure as read from the docs: re-sow iff the victim was a sower or the sown files / "
+                      "directories are incomplete, then check_bad, grow_missing, reap; a harvester/sampler crop that "
+                      "is entirely gone after a killed reap counts as delivered. HDF5 writes are one opaque "
+                      "operation published as create/3 chunks/close.",
+        "evidence": {
+            "rule": "run i uses victim phase (i mod 6) on a scenario from its own seed (farmer kind, sweep of <= 10 "
+                    "settings in <= 5 batches, result kind, storage engine, earlier data on disk, pre-grown batches, "
+                    "buffer size, write splitting); evaluations counts scenarios, workload_stats.crashes counts "
+                    "kill executions; non-trivial = every scenario (each enumerates >= 1 crash site); distinct = "
+                    "distinct (victim, farmer, N, batches, kind, number of sites).",
         },
     },
 }
